@@ -123,14 +123,7 @@ def prepare_scratch(scratch):
 
 
 def run_job(job, scratch_root, keep=False):
-    """returns result dict; jobs that may need a lot of memory are serialised (at most VERIF_HEAVY at a time)"""
-    if job.get("mem_gb", 12) >= 20:
-        with HEAVY_SEM:
-            return run_job_(job, scratch_root, keep)
-    return run_job_(job, scratch_root, keep)
-
-
-def run_job_(job, scratch_root, keep=False):
+    """returns result dict"""
     t0 = time.time()
     res = {"job": job["name"], "kind": job["kind"], "status": "error", "obligations": 0,
            "discharged": 0, "failed": [], "solver_s": 0.0, "wall_s": 0.0, "backend": job["solver"],
@@ -397,8 +390,13 @@ def main():
             sys.exit(2)
         # longest first
         sel.sort(key=lambda j: -j.get("cost", 1))
-        with ThreadPoolExecutor(max_workers=args.j) as ex:
-            futs = {ex.submit(run_job, j, scratch, args.keep): j for j in sel}
+        # two pools: jobs that may need a lot of memory run at most VERIF_HEAVY (2) at a time, the rest share the other workers
+        nheavy = int(os.environ.get("VERIF_HEAVY", "2"))
+        with ThreadPoolExecutor(max_workers=max(1, args.j - nheavy)) as ex, ThreadPoolExecutor(max_workers=nheavy) as exh:
+            futs = {}
+            for j in sel:
+                pool = exh if j.get("mem_gb", 12) >= 20 else ex
+                futs[pool.submit(run_job, j, scratch, args.keep)] = j
             for f in as_completed(futs):
                 j = futs[f]
                 try:
@@ -475,8 +473,19 @@ def main():
     for l in out_lines:
         print(l)
     wall = time.time() - t0
-    if not args.no_evidence and not args.jobs:
+    if not args.no_evidence and not args.jobs and args.prop != "ALL":
         write_evidence(args.prop, args.tier, seed, results, ann, violations, known_hits, tool_errors, wall)
+    if not args.no_evidence and args.prop == "ALL":
+        # one shared run, evidence per property from the jobs that serve it
+        props = sorted({p for r in results for p in r["_job"]["props"]})
+        for pr in props:
+            rs = [r for r in results if pr in r["_job"]["props"]]
+            if pr == "C01" and args.tier == "quick":
+                rs = [r for r in rs if r["_job"].get("c01_core") or any(r["job"].startswith(pfx) for pfx in C01_CORE)]
+            names = {r["job"] for r in rs}
+            write_evidence(pr, args.tier, seed, rs, ann, [v for v in violations if v[0]["name"] in names],
+                           [k for k in known_hits if k[2]["job"] in names], [t for t in tool_errors if t["job"] in names],
+                           sum(r.get("wall_s", 0) for r in rs))
     n_obl = sum(r["obligations"] for r in results)
     n_dis = sum(r["discharged"] for r in results)
     print("SUMMARY property=%s tier=%s jobs=%d obligations=%d discharged=%d violations=%d known=%d tool_errors=%d wall=%.1fs" % (
